@@ -193,7 +193,8 @@ func (g *gen) newCase() *wc.Case {
 			if !plain && r.Intn(120) == 0 {
 				o.Panic = true
 			}
-			if o.Err || len(o.Pkgs) > 0 || o.Panic {
+			o.Find = r.Intn(6) == 0
+			if o.Err || len(o.Pkgs) > 0 || o.Panic || o.Find {
 				k := wc.EP{E: e, P: f}
 				c.Ext[k] = o
 				c.ExtOrder = append(c.ExtOrder, k)
